@@ -402,5 +402,6 @@ func init() {
 					}
 				}
 			}, newCPUEnv, c04Check)
+		ihTLCPart(c)
 	})
 }
